@@ -80,9 +80,9 @@ Print Assumptions html_template_elsewhere_refuted.
    returned as ONE Text token and the raw-text mode is left; e is the end of input or the position of an end tag of
    that element (end_tag_at: "</" + a maximal run of letters that hashes to the element, case-insensitively,
    FOLLOWED BY whitespace, '/', '>' or the end of input), as found by the modelled rules (script double escape,
-   template regions skipped); without template delimiters and outside script it is the FIRST such end tag.
-   For script there is one more way out, inside a "<!--" section: "</script" followed by any non-letter
-   (end_tag_weak; see html_rawtext_script_comment_prefix_refuted).  (If the content is empty, e = cursor.) *)
+   template regions skipped; after fixes 756382e and 26dd3a3 the same test applies inside the "<!--" section of a
+   script); without template delimiters and outside script it is the FIRST such end tag.
+   (If the content is empty, e = cursor.) *)
 Theorem html_rawtext_never_markup :
   forall c d l ty tk l', cfg_ok c -> html_inv d l -> intag l = false -> rawtag l <> 0 ->
     next c l = Ok (ty, tk, l') ->
@@ -90,9 +90,7 @@ Theorem html_rawtext_never_markup :
       (lpos (lz l) < e ->
          ty = TextT /\ tk = Some (mkSl (lpos (lz l)) (e - lpos (lz l))) /\ ltext l' = tk /\
          rawtag l' = 0 /\ intag l' = false /\ lpos (lz l') = e) /\
-      (e = len d \/ (rawtag l <> html_hash_Plaintext /\
-                     (end_tag_at (rawtag l) (d ++ [0]) e \/
-                      (rawtag l = html_hash_Script /\ end_tag_weak (rawtag l) (d ++ [0]) e)))) /\
+      (e = len d \/ (rawtag l <> html_hash_Plaintext /\ end_tag_at (rawtag l) (d ++ [0]) e)) /\
       (has_delims c = false -> rawtag l <> html_hash_Script -> rawtag l <> html_hash_Plaintext ->
          forall p, lpos (lz l) <= p < e -> ~ end_tag_at (rawtag l) (d ++ [0]) p).
 Proof. exact html_rawtext_proof. Qed.
@@ -176,15 +174,3 @@ Theorem html_endtag_faithful :
   forall c d n tr, cfg_ok c -> run c n (new_lexer d) = Ok tr -> Forall (endtag_faithful d) (until_error tr).
 Proof. exact html_endtag_faithful_proof. Qed.
 Print Assumptions html_endtag_faithful.
-
-(* C09 refuted (remaining after fix 756382e) — inside the "<!--" section of a script element the end-tag test has no
-   check of the following byte: "<script><!--a</script-x>b--></script>" ends the raw text before "</script-x>". *)
-Theorem html_rawtext_script_comment_prefix_refuted :
-  let d := [60;115;99;114;105;112;116;62;60;33;45;45;97;60;47;115;99;114;105;112;116;45;120;62;98;45;45;62;60;47;115;99;114;105;112;116;62] in
-  exists tr, run no_tmpl 4 (new_lexer d) = Ok tr /\
-    map (fun r => (fst (fst r), snd (fst r))) tr =
-      [(StartTagT, Some (mkSl 0 7)); (StartTagCloseT, Some (mkSl 7 1)); (TextT, Some (mkSl 8 5)); (EndTagT, Some (mkSl 13 11))] /\
-    (exists r, nth_error tr 3 = Some r /\
-       match ltext (snd r) with Some t => view_bytes (lbuf (lz (snd r))) t = [115;99;114;105;112;116;45;120] | None => False end).
-Proof. exact html_rawtext_script_comment_prefix_refuted_proof. Qed.
-Print Assumptions html_rawtext_script_comment_prefix_refuted.
